@@ -38,6 +38,16 @@ impl Prop for C15 {
             Tier::Thorough => 5,
         };
         let mut v = vec![];
+        let bl: Vec<Layout> = match tier {
+            Tier::Quick => block_layouts(4, 2),
+            Tier::Thorough => block_layouts(4, 1).into_iter().chain(block_layouts(5, 2)).chain(block_layouts(4, 3)).collect(),
+        };
+        for layout in &bl {
+            let (n, m) = layout_lens(layout, 0, 0);
+            for captured in [false, true] {
+                v.push(NM { n, m, layout: *layout, captured });
+            }
+        }
         for n in 0..=max {
             for m in 0..=max {
                 for captured in [false, true] {
@@ -151,7 +161,7 @@ impl Prop for C15 {
                 "similar::algorithms::myers::diff_deadline over UniqueItem sequences and over the gaps",
                 "similar::capture_diff(Algorithm::Patience, ..) for the captured variant",
             ],
-            bounds: format!("n,m in 0..={} symbolic items, whole slices and offset lookups, raw callbacks and captured ops; the reference (which items are unique on both sides, longest in-order subset) is computed by the harness from solver-decided comparisons", match tier { Tier::Quick => 4, Tier::Thorough => 5 }),
+            bounds: format!("n,m in 0..={} symbolic items, whole slices and offset lookups, raw callbacks and captured ops; plus block-structured inputs (up to 4 blocks of 2 items a side over 3 block types with all items of different types different; thorough also block lengths 1, 3 and 5 blocks), where the shape fixes the equality pattern; the reference (which items are unique on both sides, longest in-order subset) is computed by the harness from solver-decided comparisons", match tier { Tier::Quick => 4, Tier::Thorough => 5 }),
             outside: "longer inputs; deadlines".into(),
             assumptions: vec!["constant Hash for symbolic items (lawful)".into()],
             required_witnesses: vec!["paths_with_two_or_more_ordered_anchors", "paths_with_crossing_anchors"],
@@ -192,6 +202,9 @@ pub enum WorkShape {
     /// `skel` pairwise-different items, of which `k` evenly scattered ones are replaced by
     /// fresh different items on the new side (D = 2k grows with the number of edits)
     Scattered { alg: Algorithm, skel: usize, k: usize },
+    /// a block of `skel` pairwise-different items occurring twice on both sides (every value is
+    /// repeated, none unique); `tail` extra different items follow on the new side
+    DupBlock { alg: Algorithm, skel: usize, tail: usize },
 }
 pub struct C19;
 
@@ -276,6 +289,15 @@ impl Prop for C19 {
             };
             for &(skel, k) in scat {
                 v.push(WorkShape::Scattered { alg, skel, k });
+            }
+            let dup: &[usize] = match tier {
+                Tier::Quick => &[100],
+                Tier::Thorough => &[100, 200, 400],
+            };
+            for &skel in dup {
+                for tail in [0usize, 1, 2] {
+                    v.push(WorkShape::DupBlock { alg, skel, tail });
+                }
             }
             // words over two free symbols, same length on both sides, differing in one or two places
             let wl = match tier {
@@ -370,6 +392,20 @@ impl Prop for C19 {
                 }
                 (*alg, sk, n)
             }
+            WorkShape::DupBlock { alg, skel, tail } => {
+                let sk = Sym::fresh_vec(*skel);
+                let fresh = Sym::fresh_vec(*tail);
+                let all: Vec<u32> = sk.iter().chain(fresh.iter()).map(|x| x.0).collect();
+                engine::assume(&F::Distinct(all.clone()));
+                for id in &all {
+                    engine::set_hash_class(*id, *id as u64);
+                }
+                let mut o = sk.clone();
+                o.extend(sk.iter().copied());
+                let mut n = o.clone();
+                n.extend(fresh);
+                (*alg, o, n)
+            }
             WorkShape::Repeats { alg, skel, pos, old_word, new_word } => {
                 let sk = Sym::fresh_vec(*skel);
                 engine::assume(&F::Distinct(sk.iter().map(|x| x.0).collect()));
@@ -442,7 +478,7 @@ impl Prop for C19 {
         let c = konst(if alg == Algorithm::Myers { "c19_myers_C" } else { "c19_patience_C" });
         let bound = c * (n as u64 + m as u64 + 1) * (d as u64 + 1);
         engine::stat_max(
-            &format!("{}_{}_comparisons_x100_per_(N+M+1)(D+1)", alg_name(alg), match s { WorkShape::Small { .. } => "small", WorkShape::Skeleton { .. } => "skeleton", WorkShape::Repeats { .. } => "repeats", WorkShape::Scattered { .. } => "scattered" }),
+            &format!("{}_{}_comparisons_x100_per_(N+M+1)(D+1)", alg_name(alg), match s { WorkShape::Small { .. } => "small", WorkShape::Skeleton { .. } => "skeleton", WorkShape::Repeats { .. } => "repeats", WorkShape::Scattered { .. } => "scattered", WorkShape::DupBlock { .. } => "dupblock" }),
             cmps * 100 / ((n as u64 + m as u64 + 1) * (d as u64 + 1)),
         );
         if d >= 1 {
@@ -471,12 +507,14 @@ impl Prop for C19 {
             WorkShape::Skeleton { skel, old_extra, new_extra, .. } => (*skel as u64 / 50) + (old_extra.len() + new_extra.len()) as u64,
             WorkShape::Repeats { skel, .. } => *skel as u64 / 50 + 2,
             WorkShape::Scattered { skel, k, .. } => (*skel * *k) as u64 / 100,
+            WorkShape::DupBlock { skel, .. } => *skel as u64 / 25,
         }
     }
     fn shape_json(&self, s: &WorkShape) -> Value {
         match s {
             WorkShape::Small { alg, n, m } => json!({"kind": "small", "alg": alg_name(*alg), "n": n, "m": m}),
             WorkShape::Skeleton { alg, skel, old_extra, new_extra } => json!({"kind": "skeleton", "alg": alg_name(*alg), "skel": skel, "old_extra": old_extra, "new_extra": new_extra}),
+            WorkShape::DupBlock { alg, skel, tail } => json!({"kind": "dupblock", "alg": alg_name(*alg), "skel": skel, "tail": tail}),
             WorkShape::Scattered { alg, skel, k } => json!({"kind": "scattered", "alg": alg_name(*alg), "skel": skel, "k": k}),
             WorkShape::Repeats { alg, skel, pos, old_word, new_word } => json!({"kind": "repeats", "alg": alg_name(*alg), "skel": skel, "pos": pos, "old_word": old_word, "new_word": new_word}),
         }
@@ -485,6 +523,8 @@ impl Prop for C19 {
         let alg = alg_from(v["alg"].as_str().unwrap());
         if v["kind"] == "small" {
             WorkShape::Small { alg, n: v["n"].as_u64().unwrap() as usize, m: v["m"].as_u64().unwrap() as usize }
+        } else if v["kind"] == "dupblock" {
+            WorkShape::DupBlock { alg, skel: v["skel"].as_u64().unwrap() as usize, tail: v["tail"].as_u64().unwrap() as usize }
         } else if v["kind"] == "scattered" {
             WorkShape::Scattered { alg, skel: v["skel"].as_u64().unwrap() as usize, k: v["k"].as_u64().unwrap() as usize }
         } else if v["kind"] == "repeats" {
@@ -500,6 +540,7 @@ impl Prop for C19 {
             WorkShape::Small { n, m, .. } => describe_inputs(*n, *m, PLAIN, ints),
             WorkShape::Skeleton { skel, .. } => json!({"skeleton_items": &ints[..(*skel).min(ints.len())].len(), "free_items": &ints[(*skel).min(ints.len())..]}),
             WorkShape::Scattered { skel, k, .. } => json!({"skeleton_items": skel, "scattered_substitutions": k}),
+            WorkShape::DupBlock { skel, tail, .. } => json!({"block_of_different_items_occurring_twice": skel, "extra_items_at_the_end_of_new": tail}),
             WorkShape::Repeats { skel, pos, old_word, new_word, .. } => json!({"skeleton_items": skel, "word_position": match *pos { 1 => "middle", 2 => "end", _ => "before the last skeleton item" }, "old_word": old_word, "new_word": new_word, "values_of_the_two_free_symbols": &ints[(*skel).min(ints.len())..]}),
         }
     }
@@ -513,7 +554,7 @@ impl Prop for C19 {
                 "similar::algorithms::patience::diff_deadline (+ unique, Patience hook)",
                 "similar::algorithms::utils::{common_prefix_len, common_suffix_len}",
             ],
-            bounds: format!("(a) every input with n,m in 0..={} (Patience 0..=5), D from a reference LCS (Myers) or the reported script (Patience); (d) scattered edits: 200 (thorough up to 800) pairwise-different items with 10 / 30 (40) evenly scattered substitutions, so D = 2k grows; (c) repeated-item edits: a skeleton of 100 (thorough 50/100/200) pairwise-different items with a word of length 2..=3 (4), or of length 4..=5 (5..=6) in which every symbol is repeated on both sides, over two free symbols spliced into the middle, at the end, or before the last skeleton item, old and new words of the same length differing in one or two places; (b) skeleton family: {} shared pairwise-distinct items (one z3 distinct) on both sides plus up to {} free symbolic items at front/middle/end of either side, all values of the free items; comparisons counted at PartialEq/Ord of the element type; constants C={} (Myers), C={} (Patience) from constants.json", match tier { Tier::Quick => 5, Tier::Thorough => 6 }, match tier { Tier::Quick => "50/100/200", Tier::Thorough => "50/100/200/400/800" }, match tier { Tier::Quick => 2, Tier::Thorough => 3 }, konst("c19_myers_C"), konst("c19_patience_C")),
+            bounds: format!("(a) every input with n,m in 0..={} (Patience 0..=5), D from a reference LCS (Myers) or the reported script (Patience); (e) duplicated block: 100 (thorough up to 400) different items occurring twice on both sides, 0..2 extra items on the new side; (d) scattered edits: 200 (thorough up to 800) pairwise-different items with 10 / 30 (40) evenly scattered substitutions, so D = 2k grows; (c) repeated-item edits: a skeleton of 100 (thorough 50/100/200) pairwise-different items with a word of length 2..=3 (4), or of length 4..=5 (5..=6) in which every symbol is repeated on both sides, over two free symbols spliced into the middle, at the end, or before the last skeleton item, old and new words of the same length differing in one or two places; (b) skeleton family: {} shared pairwise-distinct items (one z3 distinct) on both sides plus up to {} free symbolic items at front/middle/end of either side, all values of the free items; comparisons counted at PartialEq/Ord of the element type; constants C={} (Myers), C={} (Patience) from constants.json", match tier { Tier::Quick => 5, Tier::Thorough => 6 }, match tier { Tier::Quick => "50/100/200", Tier::Thorough => "50/100/200/400/800" }, match tier { Tier::Quick => 2, Tier::Thorough => 3 }, konst("c19_myers_C"), konst("c19_patience_C")),
             outside: "periodic, small-alphabet, unrelated and block-move inputs of hundreds or thousands of items: the number of equality patterns explodes, a path-enumerating symbolic executor cannot cover them; (a) says nothing about growth and (b) is one family. Hash-map work inside Patience's unique() with a constant hash is quadratic by construction of the harness and is not counted (only element comparisons made by the algorithm's own code and by HashMap key equality are)".into(),
             assumptions: vec!["a comparison = one call of PartialEq::eq / Ord::cmp on the element type".into()],
             required_witnesses: vec!["paths_with_edits", "skeleton_paths", "repeated_item_edit_paths", "scattered_edit_paths"],
@@ -529,6 +570,10 @@ pub struct DetShape {
     pub alg: Algorithm,
     pub n: usize,
     pub m: usize,
+    /// Some(v): `n` pairwise different items; new = old with three adjacent pairs swapped and four
+    /// items replaced by fresh different ones (positions depend on the variant v): many unique
+    /// items on both sides with several equally good alignments, a single path
+    pub permuted: Option<usize>,
 }
 pub struct C20;
 
@@ -546,7 +591,16 @@ impl Prop for C20 {
         for alg in ALGS {
             for n in 0..=max {
                 for m in 0..=max {
-                    v.push(DetShape { alg, n, m });
+                    v.push(DetShape { alg, n, m, permuted: None });
+                }
+            }
+            let sizes: &[usize] = match tier {
+                Tier::Quick => &[32, 48],
+                Tier::Thorough => &[32, 48, 64, 96],
+            };
+            for &n in sizes {
+                for variant in 0..4 {
+                    v.push(DetShape { alg, n, m: n, permuted: Some(variant) });
                 }
             }
         }
@@ -558,7 +612,23 @@ impl Prop for C20 {
         // item type whose Hash is coarser than its Eq is lawful, and the ops must not depend on it
         engine::keep_constant_hash_in_replay();
         let old = Sym::fresh_vec(s.n);
-        let new = Sym::fresh_vec(s.m);
+        let mut new = Sym::fresh_vec(s.m);
+        if let Some(variant) = s.permuted {
+            let all: Vec<u32> = old.iter().chain(new.iter()).map(|x| x.0).collect();
+            engine::assume(&F::Distinct(all));
+            let fresh = new.clone();
+            new = old.clone();
+            let n = s.n;
+            for j in 0..3 {
+                let p = (4 + 8 * j + variant) % (n - 1);
+                new.swap(p, p + 1);
+            }
+            for j in 0..4 {
+                let p = (8 * j + 3 * variant + 1) % n;
+                new[p] = fresh[p];
+            }
+            engine::witness("large_permuted_paths");
+        }
         let ops = capture_diff_slices(s.alg, &old, &new);
         // repeated call: fresh randomly seeded hash maps inside, same decisions => same ops
         let ops2 = capture_diff_slices(s.alg, &old, &new);
@@ -591,10 +661,10 @@ impl Prop for C20 {
         (s.n + s.m) as u64
     }
     fn shape_json(&self, s: &DetShape) -> Value {
-        json!({"alg": alg_name(s.alg), "n": s.n, "m": s.m})
+        json!({"alg": alg_name(s.alg), "n": s.n, "m": s.m, "permuted": s.permuted})
     }
     fn shape_from(&self, v: &Value) -> DetShape {
-        DetShape { alg: alg_from(v["alg"].as_str().unwrap()), n: v["n"].as_u64().unwrap() as usize, m: v["m"].as_u64().unwrap() as usize }
+        DetShape { alg: alg_from(v["alg"].as_str().unwrap()), n: v["n"].as_u64().unwrap() as usize, m: v["m"].as_u64().unwrap() as usize, permuted: v["permuted"].as_u64().map(|x| x as usize) }
     }
     fn describe(&self, s: &DetShape, ints: &[i64], _b: &[bool]) -> Value {
         describe_inputs(s.n, s.m, PLAIN, ints)
@@ -608,10 +678,10 @@ impl Prop for C20 {
                 "similar::capture_diff_slices -> Compact<Replace<Capture>> + myers/patience/lcs",
                 "similar::algorithms::utils::unique (std HashMap, RandomState) inside patience",
             ],
-            bounds: format!("3 algorithms x n,m in 0..={}; on every explored path (= equality pattern): two symbolic executions, one native re-execution of the Sym items with value hashing, plus the path's model instantiated as i64 and as order-preserving String relabelling, diffed natively (also on a second thread); all must return the path's ops", match tier { Tier::Quick => 4, Tier::Thorough => 5 }),
+            bounds: format!("3 algorithms x n,m in 0..={} (plus inputs of 32 / 48 (thorough up to 96) pairwise different items with three swapped adjacent pairs and four replaced items, 4 variants); on every explored path (= equality pattern): two symbolic executions, one native re-execution of the Sym items with value hashing, plus the path's model instantiated as i64 and as order-preserving String relabelling, diffed natively (also on a second thread); all must return the path's ops", match tier { Tier::Quick => 4, Tier::Thorough => 5 }),
             outside: "quantification over hasher seeds and thread schedules is NOT decided (they are not inputs a solver controls here: each execution draws fresh RandomState keys, that is all); the str-vs-[u8] text clause is reduced to C06's tokenizer equivalence plus this relabelling clause".into(),
             assumptions: vec!["a symbolic path stands for every input with its equality/order pattern because Sym carries no value".into()],
-            required_witnesses: vec!["paths_with_changes"],
+            required_witnesses: vec!["paths_with_changes", "large_permuted_paths"],
             rule: "one state = one equality pattern (explored path); 5 executions of the real code per state".into(),
         }
     }
